@@ -236,7 +236,12 @@ def build(s, key):
         return jnp.where(jr.bernoulli(kk, 0.5, shape), 1.0, -1.0)
 
     if op == "Affine":
-        b = B.Affine(u(k[0], sh, -3, 3), pos(k[1], sh))
+        scale = pos(k[1], sh)
+        if s.get("tiny_scales"):  # many dimensions with small scales: the product of the scales underflows, the sum of logs does not
+            scale = jnp.exp(u(k[1], sh, math.log(0.02), math.log(0.1)))
+        if s.get("scalar_scale"):  # scale of lower rank than loc: broadcast by the constructor
+            scale = jnp.exp(u(k[1], (), math.log(0.3), math.log(3.0)))
+        b = B.Affine(u(k[0], sh, -3, 3), scale)
         if s.get("neg"):
             b = eqx.tree_at(lambda a: a.scale, b, pos(k[1], sh) * signs(k[2], sh))
         return b
@@ -391,6 +396,12 @@ def leaf_catalogue():
             L.append({"op": "LeakyTanh", "max_val": mv, "shape": sh})
     for sh in [(5,), (2, 3), (2, 3, 2)]:
         L.append({"op": "Permute", "shape": sh})
+    # a dimension threshold: 300 scales in [0.02, 0.1] (sum of logs ~ -800: a product-based formula under/overflows even in float64)
+    L.append({"op": "Affine", "shape": (3,), "scalar_scale": True})
+    L.append({"op": "Affine", "shape": (2, 3), "scalar_scale": True})
+    L.append({"op": "Invert", "child": {"op": "Affine", "shape": (5,), "scalar_scale": True}})
+    L.append({"op": "Affine", "shape": (300,), "tiny_scales": True})
+    L.append({"op": "Invert", "child": {"op": "Affine", "shape": (300,), "tiny_scales": True}})
     for d in (1, 2, 3, 5):
         for lower in (True, False):
             L.append({"op": "TriangularAffine", "dim": d, "lower": lower})
